@@ -12,7 +12,8 @@
    instr   = [op, t (target), v (value), c (1: the body catches an exception of this API call)]
      yn v (yield the number v/8) | yv v (yield a string) | ret | raise | yar v (raise YieldAndReset)
      alw v (raise AlwaysYield) | next|stop|pause|resume|reset|play t | wait c | signal|unhang c
-     settest c v | fget f | fset f v
+     settest c v | fget f | fset f v | embed t (yield from t.__embed__(): yield every value of t until
+     it raises StopStream, passing the received invals on)
    st = [rs    : routine -> [state, pc, term]      (pc = 1 <=> no live generator)
          stack : <<"main", r, r', ...>>            (current time thread = last element)
          secs  : thread -> logical seconds (eighths)
@@ -42,7 +43,7 @@ Unbound == V("unbound", 0)
 Ret(val) == [k |-> "ret", x |-> val.x, v |-> val.v]
 Exc(cls) == [k |-> "exc", x |-> cls, v |-> 0]
 Out(k, x, val) == [k |-> k, x |-> x, v |-> val]
-RS(state, pc, term) == [state |-> state, pc |-> pc, term |-> term]
+RS(state, pc, term) == [state |-> state, pc |-> pc, term |-> term, mid |-> FALSE]   \* mid: suspended inside an embed loop
 
 Cur(s) == s.stack[Len(s.stack)]
 Now(s) == s.secs[Cur(s)]
@@ -77,7 +78,7 @@ Finish(s, r, p, out) ==
         ELSE IF cls = "AlwaysYield" THEN R2([s EXCEPT !.rs[r] = RS("Done", 1, out.v)], Ret(out.v))
         ELSE R2([s EXCEPT !.rs[r] = RS("Done", 1, @.term)], Exc(cls))
 
-RECURSIVE DoNext(_, _, _), RunBody(_, _), Api(_, _, _, _, _)
+RECURSIVE DoNext(_, _, _), RunBody(_, _, _), Api(_, _, _, _, _)
 
 DoNext(s, r, inval) ==
     LET R == s.rs[r] IN
@@ -87,15 +88,16 @@ DoNext(s, r, inval) ==
     ELSE
       LET p == prog[r]
           s1 == [s EXCEPT !.stack = Append(@, r), !.secs[r] = Now(s), !.rs[r].state = "Running"]
-          s2 == IF R.pc = 1 THEN AddLog(s1, r, 1, "start", Ret(IF p.inv = 1 THEN inval ELSE V("noarg", 0)))
+          s2 == IF R.mid THEN s1          \* resumed inside Stream.__embed__: the body itself observes nothing
+                ELSE IF R.pc = 1 THEN AddLog(s1, r, 1, "start", Ret(IF p.inv = 1 THEN inval ELSE V("noarg", 0)))
                 ELSE LET prev == p.code[R.pc - 1] IN
                      IF prev.op = "fget" THEN AddLog(s1, r, R.pc, "fval", Ret(s1.flow[prev.t]))
                      ELSE AddLog(s1, r, R.pc, "resume", Ret(IF prev.op = "wait" THEN NoneV ELSE inval))
-          b == RunBody(s2, r)
+          b == RunBody(s2, r, inval)
           f == Finish(b.st, r, p, b.out)
       IN R2([f.st EXCEPT !.stack = SubSeq(@, 1, Len(@) - 1)], f.res)
 
-RunBody(s, r) ==
+RunBody(s, r, iv) ==       \* iv: the value the body was resumed with
     LET i == s.rs[r].pc
         code == prog[r].code IN
     IF i > Len(code) THEN [st |-> s, out |-> Out("ret", "", NoneV)]
@@ -112,11 +114,21 @@ RunBody(s, r) ==
              THEN [st |-> SetPc(s, r, i + 1), out |-> Out("yield", "", V("num", 0))]
              ELSE [st |-> SetPc([s EXCEPT !.cond[ins.t].w = Append(@, s.stack[2])], r, i + 1),
                    out |-> Out("yield", "", V("str", 0 - 1))]
+        [] ins.op = "embed" ->
+             \* Stream.__embed__: try: while True: inval = yield self.next(inval) / except StopStream: return inval
+             LET inv == IF s.rs[r].mid THEN iv ELSE NoneV
+                 a == Api(s, "next", ins.t, 0, inv) IN
+             IF a.res.k = "ret"
+             THEN [st |-> [a.st EXCEPT !.rs[r].mid = TRUE], out |-> Out("yield", "", V(a.res.x, a.res.v))]
+             ELSE IF a.res.x \in {"StopStream", "PausedStream"}
+             THEN LET s1 == [a.st EXCEPT !.rs[r].mid = FALSE, !.rs[r].pc = i + 1]
+                  IN RunBody(AddLog(s1, r, i + 1, "resume", Ret(inv)), r, iv)
+             ELSE [st |-> a.st, out |-> Out("raise", a.res.x, NoneV)]
         [] OTHER ->
              LET a == Api(s, ins.op, ins.t, ins.v, NoneV)
                  s1 == AddLog(a.st, r, i, "call", a.res) IN
              IF a.res.k = "exc" /\ ins.c = 0 THEN [st |-> s1, out |-> Out("raise", a.res.x, NoneV)]
-             ELSE RunBody(SetPc(s1, r, i + 1), r)
+             ELSE RunBody(SetPc(s1, r, i + 1), r, iv)
 
 DoStop(s, r) ==
     IF s.rs[r].state = "Running" THEN R2(s, Exc("RoutineException"))
@@ -249,7 +261,7 @@ ScriptsOver(vocab, maxlen) == UNION {[1..k -> vocab] : k \in 0..maxlen}
 
 \* instruction vocabularies of the configurations
 VocabFlow == {I("yn", "", 8, 0), I("yv", "", 3, 0), I("raise", "", 0, 0), I("yar", "", 4, 0), I("alw", "", 2, 0)}
-VocabNest == {I("yn", "", 8, 0), I("next", "r2", 0, 0), I("next", "r2", 0, 1), I("next", "r1", 0, 1),
+VocabNest == {I("yn", "", 8, 0), I("embed", "r2", 0, 0), I("next", "r2", 0, 0), I("next", "r2", 0, 1), I("next", "r1", 0, 1),
               I("stop", "r1", 0, 1), I("stop", "r2", 0, 0), I("reset", "r2", 0, 0), I("pause", "r2", 0, 0),
               I("play", "r2", 0, 0)}
 VocabCond == {I("yn", "", 8, 0), I("wait", "c1", 0, 0), I("fget", "f1", 0, 0), I("signal", "c1", 0, 0),
@@ -267,6 +279,10 @@ Progs ==
       [] ProgSel = 4 -> {[r \in {"r1", "r2"} |-> IF r = "r1" THEN P(1, 0, s) ELSE b] :
                           s \in ScriptsOver({x \in VocabNest : x.op # "yn"} \cup {I("raise", "", 0, 0), I("alw", "", 2, 0)}, MaxLen),
                           b \in R2Bodies}
+      [] ProgSel = 6 -> {[r \in {"r1", "r2", "r3"} |-> P(0, 1, IF r = "r1" THEN s1 ELSE IF r = "r2" THEN s2 ELSE s3)] :
+                          s1 \in ScriptsOver({I("yn", "", 8, 0), I("next", "r2", 0, 0), I("next", "r2", 0, 1), I("embed", "r2", 0, 0)}, MaxLen),
+                          s2 \in ScriptsOver({I("yn", "", 4, 0), I("next", "r3", 0, 0), I("next", "r3", 0, 1), I("next", "r1", 0, 1)}, MaxLen),
+                          s3 \in ScriptsOver({I("yn", "", 2, 0), I("raise", "", 0, 0), I("stop", "r1", 0, 1), I("wait", "c1", 0, 0)}, MaxLen)}
       [] ProgSel = 5 -> {[r \in {"r1", "r2"} |->
                             IF r = "r1" THEN P(0, 1, <<I("next", "r1", 0, 1), I("stop", "r1", 0, 1), I("wait", "c1", 0, 0),
                                                        I("next", "r2", 0, 1), I("fget", "f1", 0, 0), I("yar", "", 4, 0)>>)
